@@ -127,10 +127,16 @@ class FakeSessionPool(object):
         con.closed += 1
         con.raw.close()
 
-def install(path):
-    """point the stub driver modules at the file 'server'"""
+def install(path, paths=()):
+    """point the stub driver modules at the file 'server'. With several servers (`paths`) the one named by
+    the connect arguments (psycopg2.connect(path) / SessionPool(dsn=path)) is served, `path` otherwise"""
     from vf import stubs
     stubs.install_all()
     import psycopg2, cx_Oracle
-    psycopg2._vf_connect = lambda *a, **k: FakeConnection(psycopg2, path, 'pyformat')
-    cx_Oracle._vf_pool = lambda *a, **k: FakeSessionPool(cx_Oracle, path)
+    known = set(paths)
+    def pick(a, k):
+        for x in list(a) + list(k.values()):
+            if isinstance(x, str) and x in known: return x
+        return path
+    psycopg2._vf_connect = lambda *a, **k: FakeConnection(psycopg2, pick(a, k), 'pyformat')
+    cx_Oracle._vf_pool = lambda *a, **k: FakeSessionPool(cx_Oracle, pick(a, k))
